@@ -29,6 +29,7 @@ ASCII_B = z3.Function('ascii_b', Bytes, Bool)  # every byte < 0x80
 UTF8_OK = z3.Function('utf8_ok', Bytes, Bool)  # bytes.decode() does not raise
 STRIP0 = z3.Function('strip0', Bytes, Bytes)  # bytes.strip(b'\0')
 PAD16 = z3.Function('pad16', Bytes, Bytes)    # struct '16s' packing (NUL pad / truncate to 16)
+SPAD16 = z3.Function('spad16', Bytes, Bytes)  # 16-character field padded with trailing spaces
 NONUL_ENDS = z3.Function('nonul_ends', Bytes, Bool)  # no NUL at either end (or empty)
 
 
